@@ -82,7 +82,27 @@ def order_jobs(tier):
                 step = 60
                 for i in range(0, len(rest), step):
                     jobs.append((sp, [ident] + rest[i:i + step]))
+                # grouping: consecutive <obs> records merged into one cluster assembled from several covariance
+                # pieces - every composition of the record list (2^(n-1)), for every record permutation (n <= 3)
+                # or the identity and the reversed order (n > 3); reference = one record per <obs>, identity order
+                pid = tuple(range(3))
+                rps = list(itertools.permutations(range(nrec))) if nrec <= 3 else [tuple(range(nrec)), tuple(reversed(range(nrec)))]
+                grouped = [(pid, rp, g) for rp in rps for g in compositions(nrec) if len(g) < nrec]
+                for i in range(0, len(grouped), step):
+                    jobs.append((sp, [ident] + grouped[i:i + step]))
     return jobs
+
+
+def compositions(n):
+    """all ways to cut n consecutive records into groups: tuples of positive sizes summing to n"""
+    out = []
+    for m in range(1 << (n - 1)):
+        g = []; size = 1
+        for k in range(n - 1):
+            if (m >> k) & 1: g.append(size); size = 1
+            else: size += 1
+        g.append(size); out.append(tuple(g))
+    return out
 
 
 def work(sp):
@@ -148,7 +168,10 @@ def main():
         if payload["case"].get("order"):
             nrec = len(N.records(sp))
             orders = [(pp, rp) for pp in itertools.permutations(range(sp["npts"])) for rp in itertools.permutations(range(nrec))]
-            sp.pop("pp", None), sp.pop("rp", None)
+            ident = orders[0]
+            orders += [(ident[0], rp, g) for rp in (itertools.permutations(range(nrec)) if nrec <= 3 else [tuple(range(nrec)), tuple(reversed(range(nrec)))])
+                       for g in compositions(nrec) if len(g) < nrec]
+            sp.pop("pp", None), sp.pop("rp", None), sp.pop("grp", None)
             res = N.evaluate_order((sp, orders))
         else:
             res = N.evaluate(sp)
@@ -183,7 +206,7 @@ def main():
                 if res["sample"] and len(ck.samples) < 2:
                     ck.sample(res["sample"])
                 report(ck, res, order=True)
-        bounds.append("order: %d chunks, every permutation of the <point> records x every permutation of the <obs> records x 4 algorithms, %d non-identity orders" % (len(jobs), norders))
+        bounds.append("order: %d chunks, every permutation of the <point> records x every permutation of the <obs> records x 4 algorithms, and every grouping of consecutive <obs> records into clusters assembled from several covariance pieces; %d non-identity orders / groupings" % (len(jobs), norders))
     for (name, places, npts, tsets, alphabet, modes) in ([] if cut else fams):
         specs = []
         for pl in places:
@@ -226,7 +249,7 @@ def main():
         "adjusted by the real gama-g3 with each of the 4 algorithms and replayed through DataParser + Adj; oracle: exit 0, "
         "parameters/equations/defect/redundancy = reference (defect = exact nullity), adjusted coordinates = generating coordinates within 2e-6 m (see assumptions for zenith networks from displaced coordinates) "
         "(resolved-defect networks from displaced coordinates: observations reproduced and corrections orthogonal to the null space over the constrained parameters; "
-        "noisy vector networks: own weighted least squares), zero residuals, agreement of the 4 algorithms, of all record orders, and of Adj on the dump. "
+        "noisy vector networks: own weighted least squares), zero residuals, agreement of the 4 algorithms, of all record orders and of all groupings of the records into <obs> clusters, and of Adj on the dump. "
         "A state = one generated input file that was executed; a transition = one gama-g3 execution or one Adj solution of a dump. Families: " + " | ".join(bounds),
         extra={"families": bounds, "unlisted_violation_signatures": dict(sorted(ck.viol_sigs.items())),
                "alphabet": {"types": list(N.TYPES), "singles_only": list(N.EXTRA_TYPES), "places": [p[0] for p in G.PLACES],
